@@ -390,7 +390,7 @@ func (c *caseID) key(what string) string {
 }
 
 type tally struct {
-	agree, undecided123, undecided125, undecidedNeither, okParse, errParse int64
+	agree, undecided123, undecided125, undecidedNeither, okParse, errParse, errOutside int64
 }
 
 func check(c *caseID, t *tally) {
@@ -416,12 +416,16 @@ func check(c *caseID, t *tally) {
 		if p == nil {
 			p = f1.pan
 		}
-		report(c, "panic", func() map[string]any { return detail(nil, fmt.Sprintf("fork panicked: %v (ref125 panic=%v ref123 panic=%v)", p, a.pan, b.pan)) })
+		report(c, "panic", func() map[string]any {
+			return detail(nil, fmt.Sprintf("fork panicked: %v (ref125 panic=%v ref123 panic=%v)", p, a.pan, b.pan))
+		})
 		return
 	}
 	// the callback is an observer only
 	if !sameResult(&f0, &f1) {
-		report(c, "callback-changes-result", func() map[string]any { return detail(&f1, "ParseFile/ParseExprFrom and the *2 variant with a callback differ") })
+		report(c, "callback-changes-result", func() map[string]any {
+			return detail(&f1, "ParseFile/ParseExprFrom and the *2 variant with a callback differ")
+		})
 		return
 	}
 	if msg := checkCallback(c.src, c.mode, &f1); msg != "" {
@@ -436,18 +440,18 @@ func check(c *caseID, t *tally) {
 	if sameResult(&a, &b) {
 		t.agree++
 		if !sameResult(&f0, &a) {
-			report(c, "differs", func() map[string]any { return detail(&a, "go1.23.5 and go1.25.9 go/parser agree with each other, the fork differs") })
+			report(c, "differs", func() map[string]any {
+				return detail(&a, "go1.23.5 and go1.25.9 go/parser agree with each other, the fork differs")
+			})
 		}
 		return
 	}
-	// Version drift between the two stdlib parsers: the whole result is not judged.  One thing still is: the fork's
-	// base lies between the two releases, so every error it reports must be reported (same position, same message) by
-	// at least one of them, and every error both of them report must be reported by the fork.
-	// (Only with AllErrors: otherwise same-line error suppression and the 10-error bailout make the reported subset depend
-	// on which drifted error happened to come first.)
-	if msg := ""; c.mode&uint(goparser.AllErrors) != 0 && func() bool { msg = sandwich(f0.err, a.err, b.err); return msg != "" }() {
-		report(c, "error-outside-both-refs", func() map[string]any { return detail(&a, "go1.23.5 and go1.25.9 disagree on this input, but "+msg) })
-		return
+	// Version drift between the two stdlib parsers: not judged.  (A "sandwich" rule — every error of the fork must be
+	// reported by one of the references — was tried and is unsound: when both a go1.24 and a go1.25 change are triggered
+	// and error recovery diverges, the fork legitimately reports errors neither reference has, e.g.
+	// gnovm/tests/files/scope1.gno with `+` replaced by `goto`.  It is kept as an informational counter only.)
+	if c.mode&uint(goparser.AllErrors) != 0 && sandwich(f0.err, a.err, b.err) != "" {
+		t.errOutside++
 	}
 	switch {
 	case sameResult(&f0, &b):
@@ -518,6 +522,7 @@ func (t *tally) flush() {
 	r.OutcomeN("undecided_fork_matches_go1.23", t.undecided123)
 	r.OutcomeN("undecided_fork_matches_go1.25", t.undecided125)
 	r.OutcomeN("undecided_fork_matches_neither", t.undecidedNeither)
+	r.OutcomeN("undecided_allerrors_fork_error_in_neither_ref(info)", t.errOutside)
 	r.OutcomeN("fork_parse_ok", t.okParse)
 	r.OutcomeN("fork_parse_errors", t.errParse)
 	nDecided.Add(t.agree)
@@ -897,6 +902,8 @@ func main() {
 		upTo("decl12", decl12, fFile, 5, false)
 		upTo("stmt12", stmt12, fBody, 5, false)
 		upTo("expr12", expr12, fExpr, 5, false)
+		plans = append(plans, plan{"wide", wide, frames, 3, false})
+		plans = append(plans, plan{"core", core, frames, 4, false})
 	} else {
 		upTo("core", core, frames, 4, true)
 		upTo("wide", wide, frames, 3, true)
@@ -947,9 +954,9 @@ func main() {
 	if os.Getenv("C21_BENCH") != "" || os.Getenv("C21_ONLY") == "enum" {
 		sel = corpus[:1]
 	} else if r.Quick() {
-		// quick: every 8th file, at most 2 KB; deletions + duplications
+		// quick: every 4th file, at most 2 KB; deletions + duplications
 		for i, cf := range corpus {
-			if i%8 == 0 && len(cf.src) <= 2<<10 {
+			if i%4 == 0 && len(cf.src) <= 2<<10 {
 				sel = append(sel, cf)
 			}
 		}
@@ -959,6 +966,11 @@ func main() {
 			if len(cf.src) <= 8<<10 {
 				sel = append(sel, cf)
 			}
+		}
+	}
+	if os.Getenv("C21_REVERSE") != "" { // debugging aid: visit the selected files in reverse order (useful with a small -budget)
+		for i, j := 0, len(sel)-1; i < j; i, j = i+1, j-1 {
+			sel[i], sel[j] = sel[j], sel[i]
 		}
 	}
 	var nmut, filesDone atomic.Int64
